@@ -245,7 +245,9 @@ func c02Schemes(c *Ctx) {
 			var noType, noEmpty []string
 			for _, e := range exits {
 				facts := fl.At(e.Ret)
-				if !trueOf(facts, func(k string) bool { return strings.HasPrefix(k, "assert[hs/security/crypto.Multi[") && strings.HasSuffix(k, "](p1)#1") }) {
+				if !trueOf(facts, func(k string) bool {
+					return strings.HasPrefix(k, "assert[hs/security/crypto.Multi[") && strings.HasSuffix(k, "](p1)#1")
+				}) {
 					noType = append(noType, p.Pos(e.Ret.Pos()))
 				}
 				if !(hasCmp(facts, "!=", contains(kPartLen+"p1))"), is("c:0")) || hasCmp(facts, "<", is("c:0"), contains(kPartLen+"p1))")) ||
@@ -305,7 +307,9 @@ func c02Schemes(c *Ctx) {
 		fl := NewFlow(p, fn)
 		var noType []string
 		for _, e := range successExits(fl, 0) {
-			if !trueOf(fl.At(e.Ret), func(k string) bool { return strings.HasPrefix(k, "assert[*hs/security/crypto.BLS12AggregateSignature](p1)#1") }) {
+			if !trueOf(fl.At(e.Ret), func(k string) bool {
+				return strings.HasPrefix(k, "assert[*hs/security/crypto.BLS12AggregateSignature](p1)#1")
+			}) {
 				noType = append(noType, p.Pos(e.Ret.Pos()))
 			}
 		}
@@ -617,7 +621,9 @@ func c02FindHighest(c *Ctx) {
 		var bad []string
 		for _, e := range successExits(fa, 0) {
 			viaOK := e.Via != nil && strings.HasPrefix(fa.K.Key(e.Via), kVerifyQC) && strings.Contains(fa.K.Key(e.Via), kBlockQC+"p1"+kPropBlock+"))")
-			if !viaOK && !errNilOf(fa.At(e.Ret), func(k string) bool { return strings.HasPrefix(k, kVerifyQC) && strings.Contains(k, kBlockQC+"p1"+kPropBlock+"))") }) {
+			if !viaOK && !errNilOf(fa.At(e.Ret), func(k string) bool {
+				return strings.HasPrefix(k, kVerifyQC) && strings.Contains(k, kBlockQC+"p1"+kPropBlock+"))")
+			}) {
 				bad = append(bad, p.Pos(e.Ret.Pos()))
 			}
 		}
